@@ -53,7 +53,7 @@ ASSUMPTIONS = [
     "'y' reverses the column index x, 'z' reverses the tilt order; a list of axes is applied left to right",
     "bin: only complete b x b blocks are judged (the code zero-pads incomplete edge blocks; those output pixels are not judged); "
     "int16: |result - mean| <= 1; float32: |result - mean| <= 1e-5 * max|block| + 1e-37; b in 1..min(H, W)",
-    "tilt angles: no ties, gaps >= 0.01 degree (angle files are read as float32 by cryoCAT), list / float64 / float32 array / text file "
+    "tilt angles: no ties, gaps >= 0.001 degree (angle files are read as float32 by cryoCAT), list / float64 / float32 array / text file "
     "with one value per line; ties are outside the quantifier and never generated",
     "index input: non-empty proper subset without repetition, in any order; list, int64/int32 array, text file one index per line, or "
     "csv flag table with a ToBeRemoved column (always 0-based positions; rows whose Removed flag is set are not part of the stack)",
@@ -331,9 +331,17 @@ def _pixels(rng, cls, n, H, W, dtype):
 
 
 def _angles(rng, cls, n):
-    kind = str(rng.choice(["permuted", "permuted", "dose_symmetric", "descending", "ascending"]))
+    kind = str(rng.choice(["permuted", "permuted", "dose_symmetric", "descending", "ascending", "hairline"]))
     if cls == "angles_hostile":
-        kind = str(rng.choice(["descending", "all_negative", "close", "ints", "dose_symmetric", "rotated"]))
+        kind = str(rng.choice(["descending", "all_negative", "close", "ints", "dose_symmetric", "rotated", "hairline", "hairline"]))
+    if kind == "hairline":
+        # distinct angles 0.001..0.004 degree apart (no ties, also not after a float32 read), in any order: a sort key that is
+        # rounded, truncated or narrowed too far turns them into ties
+        m = int(rng.integers(2, n + 1))
+        base = float(rng.integers(-8000, 8000)) / 100.0
+        a = np.concatenate([base + np.cumsum(rng.integers(1, 5, m)) / 1000.0,
+                            rng.choice(np.arange(-8900, -8100), n - m, replace=False) / 100.0])
+        return np.round(rng.permutation(a), 3), kind
     if kind == "close":
         base = float(rng.integers(-8000, 8000)) / 100.0
         a = base + 0.01 * rng.permutation(n)
@@ -558,7 +566,7 @@ def _angles_input(ctx, case, v, k):
         return np.array(a, dtype=np.float32)
     p = _path(ctx, case, "angles%d%s" % (k, case["fmt"]["ang_ext"]))
     style = case["fmt"]["ang_style"]
-    _write_lines(p, [("%g" % x) if style == "g" else ("%.2f" % x) for x in a], style)
+    _write_lines(p, [("%g" % x) if style == "g" else ("%.3f" % x) for x in a], style)
     return p
 
 
